@@ -87,7 +87,9 @@ def psi_frame(pos, H, ppp, lists, l, weights=None, nmax=None):
 
 
 def psi_traj(frames_pos, H, ppp, frames_lists, l, frames_weights=None, nmax=None):
-    out = [psi_frame(p, H, ppp, frames_lists[t], l, None if frames_weights is None else frames_weights[t], nmax)
+    """H: one cell matrix, or a list with one matrix per frame (sheared trajectories: frame t uses its own cell)."""
+    Hs = list(H) if isinstance(H, (list, tuple)) else [H] * len(frames_pos)
+    out = [psi_frame(p, Hs[t], ppp, frames_lists[t], l, None if frames_weights is None else frames_weights[t], nmax)
            for t, p in enumerate(frames_pos)]
     return (np.array([o[0] for o in out]), np.array([o[1] for o in out]), np.array([o[2] for o in out]))
 
